@@ -31,6 +31,9 @@ TScalar pfaffian_cpp(Matrix<TScalar> &matrix_in) {
     if(n == 0) return 1.0;
     if((n & 1) == 1) return 0;
 
+    // the elimination below works in place: do it on a copy, the caller's buffer is shared with numpy
+    Matrix<TScalar> matrix = matrix_in.copy();
+
     TScalar result = 1.0;
 
     size_t kp;
@@ -41,7 +44,7 @@ TScalar pfaffian_cpp(Matrix<TScalar> &matrix_in) {
             size_t index_i = i * n + k;
             size_t index_kp = kp * n + k;
             
-            if (std::abs(matrix_in[index_i]) > std::abs(matrix_in[index_kp])) {
+            if (std::abs(matrix[index_i]) > std::abs(matrix[index_kp])) {
                 kp = i;
             }
         }
@@ -57,24 +60,24 @@ TScalar pfaffian_cpp(Matrix<TScalar> &matrix_in) {
                 size_t i_k1 = k1_start + i;
                 size_t i_kp = kp_start + i;
 
-                tmp = matrix_in[i_k1];
-                matrix_in[i_k1] = matrix_in[i_kp];
-                matrix_in[i_kp] = tmp;
+                tmp = matrix[i_k1];
+                matrix[i_k1] = matrix[i_kp];
+                matrix[i_kp] = tmp;
             }
             
             for(size_t i = 0; i < n; i++) {
                 size_t i_k1 = (i * n) + k + 1;
                 size_t i_kp = (i * n) + kp;
 
-                tmp = matrix_in[i_k1];
-                matrix_in[i_k1] = matrix_in[i_kp];
-                matrix_in[i_kp] = tmp;
+                tmp = matrix[i_k1];
+                matrix[i_k1] = matrix[i_kp];
+                matrix[i_kp] = tmp;
             }
 
             result *= -1;
         }
 
-        TScalar element = matrix_in[(k * n) + k + 1];
+        TScalar element = matrix[(k * n) + k + 1];
 
         if(element != 0) {
             result *= element;
@@ -83,17 +86,17 @@ TScalar pfaffian_cpp(Matrix<TScalar> &matrix_in) {
             TScalar * tau = new TScalar[tau_len];
 
             for (size_t i = 0; i < tau_len; i++) {
-                tau[i] = matrix_in[(k * n) + (k + 2 + i)] / element;
+                tau[i] = matrix[(k * n) + (k + 2 + i)] / element;
             }            
             
             if (k + 2 < n) {
 
                 for(size_t i = k + 2; i < n; i++) {
                     for(size_t j = k + 2; j < n; j++) {
-                        matrix_in[(i * n) + j] += 
+                        matrix[(i * n) + j] += 
                             (
-                                (tau[i - (k + 2)] * matrix_in[(j * n) + k + 1]) - 
-                                (tau[j - (k + 2)] * matrix_in[(i * n) + k + 1])
+                                (tau[i - (k + 2)] * matrix[(j * n) + k + 1]) - 
+                                (tau[j - (k + 2)] * matrix[(i * n) + k + 1])
                             );
                     }
                 }
